@@ -333,6 +333,10 @@ pub fn stack_cases(tier: &str, acc: &mut Acc) {
         ("k7/8/8/p1p1p1p1/P1P1P1P1/8/8/K7 w - - 0 1", ["a1b1", "a8b8", "b1a1", "b8a8"]),
         // cornered king: the search deepens fastest here (depth 30+ within a second), so the deepest plies are reached from a long game
         ("k7/2K5/8/8/8/8/8/8 w - - 0 1", ["c7c8", "a8a7", "c8c7", "a7a8"]),
+        // forced lines: everything is locked, each king owns a two-square cage; after a4-a5 (resp. a5-a4) both sides have
+        // exactly one legal move on every ply for ever - extensions that "cost no depth" on forced replies never stop here
+        ("5b1k/4pPp1/p3P1p1/6P1/P5p1/4p1P1/4PpP1/5B1K w - - 0 1", ["h1h2", "h8h7", "h2h1", "h7h8"]),
+        ("5b1k/4pPp1/4P1p1/p5P1/6p1/P3p1P1/4PpP1/5B1K b - - 0 1", ["h8h7", "h1h2", "h7h8", "h2h1"]),
     ];
     for (root, shuffle) in roots {
         for plies in [1usize, 2, 397, 398, 399, 400] {
